@@ -26,14 +26,14 @@ ASSUMPTIONS = [
     "instances whose enumeration exceeds the path limit are reported as truncated and not counted as decided",
     "capping picks use weights among compatible end groups (a list on the open descriptor is used for growth only), as documented in README 'generation'",
 ]
-FLOORS = {"quick": {"exact_instances_decided": 60, "exact_paths": 3000, "decisions_checked": 20000, "distinct_nontrivial": 30}, "thorough": {"exact_instances_decided": 800, "exact_paths": 60000}}
+FLOORS = {"quick": {"exact_instances_decided": 60, "exact_paths": 3000, "decisions_checked": 20000, "distinct_nontrivial": 30}, "thorough": {"exact_instances_decided": 350, "exact_paths": 40000}}
 
 
 def plan(tier, seed):
     cases = []
-    n = 96 if tier == "quick" else 1600
+    n = 96 if tier == "quick" else 640
     for i in range(n):
-        cases.append({"kind": "exact", "seed": seed * 1000403 + i, "arch": G.ARCHS[i % len(G.ARCHS)], "limit": 350 if tier == "quick" else 4000})
+        cases.append({"kind": "exact", "seed": seed * 1000403 + i, "arch": G.ARCHS[i % len(G.ARCHS)], "limit": 350 if tier == "quick" else 2500})
     n = 40 if tier == "quick" else 800
     for i in range(n):
         cases.append({"kind": "insitu", "seed": seed * 1000423 + i, "arch": G.ARCHS[i % len(G.ARCHS)], "mols": 5, "gens": 3})
